@@ -177,12 +177,18 @@ def assign_lengths(t, rng, mode='exact', root_len=False, p_missing=0.0, zero_ok=
             nd.length = None
     return t
 
-def name_internals(t, rng, p=0.5):
+def name_internals(t, rng, p=0.5, p_collide=0.15):
+    """names for internal nodes; with probability p_collide an internal node takes the name of some LEAF (legal: only leaf names
+    must be unique) — e.g. a support value equal to a numeric taxon name"""
     k = 0
+    leafnames = [l.name for l in t.leaves() if l.name]
     for nd in t.nodes():
         if nd.children and rng.random() < p:
-            nd.name = 'n%d' % k
-            k += 1
+            if leafnames and rng.random() < p_collide:
+                nd.name = rng.choice(leafnames)
+            else:
+                nd.name = 'n%d' % k
+                k += 1
     return t
 
 # ---- rendering -------------------------------------------------------------------------------------------
